@@ -382,6 +382,10 @@ func cleanupNewVertices(newVertices [][2]float64, segment [2][2]float64, level p
 // cleanupNewRing cleans up a ring (if not too small) that was just crafted inside addPointsAndSnap
 func cleanupNewRing(newRing [][2]float64, isOuter bool, hitMultiple map[intgeom.Point][]int, ringIdx int) (outerRings, innerRings, pointsAndLines [][][2]float64) {
 	newRingLen := len(newRing)
+	// an empty ring (from an empty input ring) is not a point or a line worth keeping
+	if newRingLen == 0 {
+		return nil, nil, nil
+	}
 	// LinearRings(): "The last point in the linear ring will not match the first point."
 	if newRingLen > 1 && newRing[0] == newRing[newRingLen-1] {
 		newRing = newRing[:newRingLen-1]
